@@ -18,6 +18,12 @@ def _run_one(entry, repo):
     d = tempfile.mkdtemp(prefix='verif-st-', dir=base)
     try:
         shutil.copytree(os.path.join(repo, 'pymodbus'), os.path.join(d, 'pymodbus'))
+        if isinstance(edits, str):
+            # a stored patch (seeded breaking change or behaviour-preserving refactor)
+            r = subprocess.run(['patch', '-p1', '-s', '-f', '-d', d, '-i', os.path.join(VERIF, edits)], capture_output=True, text=True)
+            if r.returncode:
+                return (pid, name, kind, 'stale', 'patch does not apply to the current tree')
+            edits = []
         for f, old, new in edits:
             p = os.path.join(d, f)
             try:
@@ -44,11 +50,45 @@ def _run_one(entry, repo):
         shutil.rmtree(d, ignore_errors=True)
 
 
+def patch_entries(pid=None):
+    """stored patches: seeded/<id>/patch.diff must be reported by the checks listed in seeded/INDEX.json,
+    selftest/twins/*.diff (behaviour-preserving refactors) must leave every check silent"""
+    out = []
+    pids = [pid] if pid else ['C%02d' % i for i in range(1, 21)]
+    try:
+        idx = json.load(open(os.path.join(VERIF, 'seeded', 'INDEX.json')))
+    except OSError:
+        idx = {}
+    for seed, catchers in sorted(idx.items()):
+        for c in catchers:
+            if c in pids:
+                out.append((c, 'seeded/' + seed, 'mutant', os.path.join('seeded', seed, 'patch.diff')))
+    tw = os.path.join(VERIF, 'selftest', 'twins')
+    if os.path.isdir(tw):
+        for f in sorted(os.listdir(tw)):
+            if f.endswith('.diff'):
+                touched = _touched(os.path.join(tw, f))
+                for c in pids:
+                    if pid or _relevant(c, touched):
+                        out.append((c, 'twins/' + f, 'twin', os.path.join('selftest', 'twins', f)))
+    return out
+
+
+def _touched(patch):
+    return [l.split(' b/')[-1].strip() for l in open(patch) if l.startswith('diff --git')]
+
+
+def _relevant(pid, touched):
+    # the full run (no property given) pairs a twin with every check; kept as a hook for narrowing
+    return True
+
+
 def run(pid=None, jobs=16):
     sys.path.insert(0, VERIF)
     from selftest.corpus import CORPUS
     repo = os.environ.get('VERIF_REPO', '/repo')
     entries = [e for e in CORPUS if pid is None or e[0] == pid]
+    entries += patch_entries(pid)
     with ThreadPoolExecutor(max_workers=jobs) as ex:
         results = list(ex.map(lambda e: _run_one(e, repo), entries))
     return results
